@@ -18,8 +18,8 @@ CFG = dict(
                   n_quick=14000, n_thorough=200000, thorough_seeds=4, n_search=60000, search_seeds=3)],
     rule="adversarial prefixes as for C01 (n=4,7; ≤ f Byzantine; drops, duplicates, reorderings, timeouts, compaction on/off), then the Byzantine operators go silent and the "
          "constructed continuation runs on the real controllers: everything ever sent is delivered (the leader of a round receives its round-changes with the highest prepared "
-         "one on the quorum edge), undecided operators time out, at most f+3 rounds; 3 directed scenarios first; every correct operator's trace is diffed against the Lean model",
+         "one on the quorum edge), undecided operators time out, at most f+3 rounds; 4 directed scenarios first; every correct operator's trace is diffed against the Lean model",
     trusted_base=["harness abstraction + scheduler + continuation (harness/cmd/qbft/simsearch.go, directed.go)", "BLS / SHA-256 abstracted"],
     assumptions=["timely delivery among correct operators after the chosen point; every message a correct operator ever sent is eventually delivered (drops = delays)"],
-    explanation="KNOWN-FINDING lines: (1) wedge by mixed locks (spec-aligned justification predicate), (2) laggards with the runner's compaction (consequence of the C06 finding).",
+    explanation="KNOWN-FINDING lines: (1) wedge by mixed locks (spec-aligned justification predicate), (2) laggards with the runner's compaction (consequence of the C06 finding), (3) a lone laggard behind operators that decided through a received certificate (they neither time out nor re-broadcast it).",
 )
